@@ -263,6 +263,12 @@ func checkC18(c *h.Check) {
 	if !thorough {
 		ex.MaxDepth = 0
 	}
+	if strings.HasPrefix(c.Only, "init2:") {
+		c18Multi(c, thorough)
+		c.Coverage["states"], c.Coverage["transitions"], c.Coverage["traces_validated_against_impl"] = 1, 1, 1
+		c.Samples = append(c.Samples, c.Only)
+		return
+	}
 	if c.Only != "" {
 		// replay of one recorded history, without the explorer
 		rvs, err := ex.Replay(initial, c.Only)
@@ -280,13 +286,16 @@ func checkC18(c *h.Check) {
 	for _, v := range vs {
 		c.AddViolation(v, nil, map[string]interface{}{"history": v.CaseID})
 	}
-	if !ex.Closed {
+	ms, mt, mi, mclosed, _ := c18Multi(c, thorough)
+	if !ex.Closed || !mclosed {
 		c.Exhaustive = false
 	}
-	c.Coverage["states"] = ex.States
-	c.Coverage["transitions"] = ex.Transitions
-	c.Coverage["traces_validated_against_impl"] = ex.Transitions
-	c.Coverage["wire_invocations_fs"] = ex.Invocations
+	c.Coverage["two_package_exploration"] = map[string]interface{}{"states": ms, "transitions": mt, "wire_invocations": mi, "closure_reached": mclosed,
+		"rule": "second explicit-state BFS to closure: packages app (imports lib and refers to lib's injector from ordinary code) and lib, each with its own injector file and output; operations: switch either package's injector file between accepted and rejected variants, gen ./... / ./app / ./lib, diff ./..., check ./..., delete or damage either output (non-compiling, stale but compiling; thorough adds garbage with the old constraint syntax and a hand edit). Invariants: gen's status and every file it (re)writes equal the fresh-checkout result of the named packages, whatever the other package's output looks like and whether the other package is accepted; outputs of packages not named and of rejected packages are untouched; second gen changes nothing; diff after gen ./... exits 0; check/diff statuses follow the current sources only"}
+	c.Coverage["states"] = ex.States + ms
+	c.Coverage["transitions"] = ex.Transitions + mt
+	c.Coverage["traces_validated_against_impl"] = ex.Transitions + mt
+	c.Coverage["wire_invocations_fs"] = ex.Invocations + mi
 	c.Coverage["closure_reached"] = ex.Closed
 	c.Coverage["deepest_state"] = ex.MaxDepthSeen
 	c.Coverage["evaluations"] = ex.Transitions
